@@ -53,7 +53,40 @@ CHECKS = {
             "Each case is run with limits {1,2,3,5,|A|,|A|+1} under default and all-off settings; a successful limited run must be "
             "a duplicate-free subset of the unlimited answer of the same settings with exactly min(N,|A|) rows.",
             TB, "7 C08"),
+    "C11": ("store-replay", "TLC-enumerated histories (MC_Store) replayed on the real StorageEngine; every step judged by StoreTrace.tla",
+            "model_checking",
+            "TLC enumerates every history of length 4 (thorough: 5) over {ins t1, ins t2, ins [t1,t1], ins [t1,t2], del t1, del t2, "
+            "save, compact, restart, restart without save} and model-checks the abstract machine's laws; each history is replayed on a "
+            "fresh real engine (buffer sizes 1, 2, 10000) and StoreTrace accepts a restart step iff the observed state equals the "
+            "state observed before it. Plus seeded random histories of length 4-14 over 2 relations.",
+            "Sequential client; clean shutdown = save_all + drop (drop alone in immediate mode). " + TB, "7 C11"),
+    "C12": ("store-replay", "value-domain pair enumeration + random value histories replayed on the real engine, judged by StoreTrace.tla "
+            "with values as opaque tokens",
+            "model_checking",
+            "Values are opaque tagged tokens (bit patterns for floats) on which the specification only uses equality. Every ordered "
+            "pair of representative values (thorough: of the full 47-value domain) in one column x {WAL only, flushed, compacted} "
+            "plus random mixed-kind histories; a restart step is accepted iff the recovered relation equals the one served before "
+            "and the store reopened.",
+            "Encode/decode fidelity is judged by token equality only (the specification cannot explain a changed token). " + TB, "7 C12"),
+    "C14": ("store-replay", "TLC-enumerated histories x 24 persistence configurations replayed on the real engine, judged by StoreTrace.tla",
+            "model_checking",
+            "Every history of length 3 (thorough: 4) of MC_Store under buffer_size {1,2,3,10000} x max_wal_size {0,200} x durability "
+            "{immediate,batched,async}, plus random histories: save/compact steps must leave the observed state unchanged and every "
+            "clean restart after a maintenance step must reproduce it.",
+            "Clean shutdown only (save_all before drop in batched/async mode). " + TB, "7 C14"),
+    "C17": ("store-replay", "TLC-enumerated multi-graph histories replayed on the real engine, judged by StoreTrace.tla "
+            "(sequential part of the property)",
+            "model_checking",
+            "Every history of length 4 (thorough: 5) over two graphs {ins g, ins h, del h, create h, drop h, rule g, rule h, restart}: "
+            "a refused operation changes nothing, an operation on one graph leaves the other's facts/rules/schemas alone (Isolated), "
+            "a dropped graph is gone after the drop and after every later restart, a re-created graph starts empty. MC_Store checks "
+            "DropFinal and KGIsolation on the abstract machine.",
+            "The concurrent part (insert racing drop + re-create) is not covered by this check yet. " + TB, "7 C17"),
 }
+
+ENGINES.append({"name": "store-replay", "path": "tools/eng_store.py", "serves_properties": ["C11", "C12", "C14", "C17"],
+                "kind_free_text": "spec/MC_Store.tla enumerates histories of the abstract store machine; harness replays them on the "
+                                  "real StorageEngine; spec/StoreTrace.tla judges every observed step (Store!StepOK)"})
 
 ALL = ["C%02d" % i for i in range(1, 37)]
 
